@@ -146,6 +146,11 @@ func (s *EncryptionSession) initFinalize(reverse bool, keyContext string) error 
 		return errors.New("invalid key context")
 	}
 
+	// Check if a key exchange is in progress.
+	if s.kxRouterPrivate == nil || s.kxRemotePublic == nil {
+		return errors.New("no key exchange in progress")
+	}
+
 	// Compute shared key.
 	sharedKey, err := s.kxRouterPrivate.ECDH(s.kxRemotePublic)
 	if err != nil {
